@@ -132,6 +132,10 @@ class Mailbox:
         db.execute("UPDATE `mailbox_sides` SET `opened`=?, `mood`=?"
                    " WHERE `mailbox_id`=? AND `side`=?",
                    (False, mood, self._mailbox_id, side))
+        # closing is activity like everything else a client does; a 'close'
+        # re-sent on a new connection stamps the mailbox anyway (by opening
+        # it first), so stamp it on this path too
+        self._touch(when)
         db.commit()
 
         # are any sides still open?
